@@ -9,7 +9,228 @@ use num_bigint::{BigInt, BigUint};
 use swimos_model::{Attr, Blob, Item, Text, Value};
 use swimos_recon::parser::{parse_recognize, Span};
 use swimos_recon::{compare_recon_values, print_recon, print_recon_compact, print_recon_pretty, recon_hash};
+use swimos_form::read::{ReadError, ReadEvent, Recognizer, RecognizerReadable};
 use vcore::*;
+
+// ---- the parse events of a text (used only to classify a failure into the known class) ----
+pub struct Log(pub Vec<String>);
+pub struct LogRec(Vec<String>);
+impl Recognizer for LogRec {
+    type Target = Log;
+    fn feed_event(&mut self, input: ReadEvent<'_>) -> Option<Result<Log, ReadError>> {
+        self.0.push(match input {
+            ReadEvent::StartBody => "SB".into(),
+            ReadEvent::EndRecord => "ER".into(),
+            ow => format!("{:?}", ow),
+        });
+        None
+    }
+    fn try_flush(&mut self) -> Option<Result<Log, ReadError>> {
+        Some(Ok(Log(std::mem::take(&mut self.0))))
+    }
+    fn reset(&mut self) {
+        self.0.clear()
+    }
+}
+impl RecognizerReadable for Log {
+    type Rec = LogRec;
+    type AttrRec = LogRec;
+    type BodyRec = LogRec;
+    fn make_recognizer() -> LogRec {
+        LogRec(vec![])
+    }
+    fn make_attr_recognizer() -> LogRec {
+        LogRec(vec![])
+    }
+    fn make_body_recognizer() -> LogRec {
+        LogRec(vec![])
+    }
+}
+
+/// The events of a text with every StartBody / EndRecord removed.
+fn events_without_braces(s: &str) -> Option<Vec<String>> {
+    parse_recognize::<Log>(Span::new(s), false).ok().map(|l| l.0.into_iter().filter(|e| e != "SB" && e != "ER").collect())
+}
+
+// ---- a small value language spelled by hand, so that every legal way of writing it is reachable ----
+#[derive(Clone, Debug)]
+enum Sv {
+    Int(i64),
+    Str(String),
+    Rec(Vec<(String, Option<Sv>)>, Vec<Si>),
+}
+#[derive(Clone, Debug)]
+enum Si {
+    V(Sv),
+    S(Sv, Sv),
+}
+
+fn gen_sv(rng: &mut Rng, depth: u32) -> Sv {
+    let top = if depth == 0 { 2 } else { 4 };
+    match rng.below(top) {
+        0 => Sv::Int(*rng.pick(&[0, 1, 2, 3, -1, 10])),
+        1 => Sv::Str(rng.pick(&["a", "b", "x)y", "p,q", "u;v", "m:n", "{", "}", "(", "two words", "q\"r", "@z", "l\nm", ""]).to_string()),
+        _ => {
+            let nattrs = *rng.pick(&[0usize, 0, 1, 1, 2]);
+            let nitems = *rng.pick(&[0usize, 1, 2, 2, 3]);
+            let attrs = (0..nattrs)
+                .map(|_| {
+                    let body = if rng.below(4) == 0 { None } else { Some(gen_sv(rng, depth - 1)) };
+                    (rng.pick(&["a", "b", "tag"]).to_string(), body)
+                })
+                .collect();
+            let items = (0..nitems)
+                .map(|_| if rng.below(3) == 0 { Si::S(gen_sv(rng, 0), gen_sv(rng, depth - 1)) } else { Si::V(gen_sv(rng, depth - 1)) })
+                .collect();
+            Sv::Rec(attrs, items)
+        }
+    }
+}
+
+fn spell_str(rng: &mut Rng, t: &str) -> String {
+    if swimos_model::identifier::is_identifier(t) && rng.below(2) == 0 {
+        return t.to_string();
+    }
+    let mut s = String::from("\"");
+    for c in t.chars() {
+        match c {
+            '"' | '\\' => {
+                s.push('\\');
+                s.push(c);
+            }
+            '\n' => s.push_str("\\n"),
+            _ => s.push(c),
+        }
+    }
+    s.push('"');
+    s
+}
+
+fn sep(rng: &mut Rng) -> &'static str {
+    *rng.pick(&[",", ",", ", ", ";", "; ", "\n", " \n ", ",\n", "\n\n"])
+}
+
+fn spell_items(rng: &mut Rng, items: &[Si]) -> String {
+    let mut out = String::new();
+    for (i, it) in items.iter().enumerate() {
+        if i > 0 {
+            out.push_str(sep(rng));
+        }
+        match it {
+            Si::V(v) => out.push_str(&spell_sv(rng, v)),
+            Si::S(k, v) => {
+                out.push_str(&spell_sv(rng, k));
+                out.push_str(*rng.pick(&[":", ": ", " : "]));
+                out.push_str(&spell_sv(rng, v));
+            }
+        }
+    }
+    out
+}
+
+fn spell_sv(rng: &mut Rng, v: &Sv) -> String {
+    match v {
+        Sv::Int(n) => n.to_string(),
+        Sv::Str(t) => spell_str(rng, t),
+        Sv::Rec(attrs, items) => {
+            let mut out = String::new();
+            for (name, body) in attrs {
+                out.push('@');
+                out.push_str(name);
+                match body {
+                    None => {
+                        if rng.below(3) == 0 {
+                            out.push_str("()");
+                        }
+                    }
+                    Some(b) => {
+                        out.push('(');
+                        if rng.below(3) == 0 {
+                            out.push_str(*rng.pick(&[" ", "\n"]));
+                        }
+                        match b {
+                            // a record without attributes may be written without its braces
+                            Sv::Rec(a, its) if a.is_empty() && !its.is_empty() && rng.below(3) != 0 => out.push_str(&spell_items(rng, its)),
+                            _ => out.push_str(&spell_sv(rng, b)),
+                        }
+                        if rng.below(3) == 0 {
+                            out.push_str(*rng.pick(&[" ", "\n"]));
+                        }
+                        out.push(')');
+                    }
+                }
+                if rng.below(3) == 0 {
+                    out.push(' ');
+                }
+            }
+            if attrs.is_empty() || !items.is_empty() {
+                out.push('{');
+                if rng.below(4) == 0 {
+                    out.push_str(*rng.pick(&[" ", "\n"]));
+                }
+                out.push_str(&spell_items(rng, items));
+                if rng.below(4) == 0 {
+                    out.push_str(*rng.pick(&[" ", "\n"]));
+                }
+                out.push('}');
+            }
+            out
+        }
+    }
+}
+
+/// Another value made of the same leaves in the same order with the braces placed differently.
+fn regroup(rng: &mut Rng, v: &Sv) -> Sv {
+    match v {
+        Sv::Rec(attrs, items) if items.len() >= 2 && rng.below(2) == 0 => {
+            let k = 1 + rng.usize_below(items.len() - 1);
+            let (l, r) = items.split_at(k);
+            let mut out = vec![];
+            match rng.below(3) {
+                0 => {
+                    out.push(Si::V(Sv::Rec(vec![], l.to_vec())));
+                    out.extend(r.iter().cloned());
+                }
+                1 => {
+                    out.extend(l.iter().cloned());
+                    out.push(Si::V(Sv::Rec(vec![], r.to_vec())));
+                }
+                _ => out.push(Si::V(Sv::Rec(vec![], items.clone()))),
+            }
+            Sv::Rec(attrs.clone(), out)
+        }
+        Sv::Rec(attrs, items) if items.len() == 1 && rng.below(2) == 0 => match &items[0] {
+            // {{x, y}} -> {x, {y}} and the like
+            Si::V(Sv::Rec(a, inner)) if a.is_empty() && inner.len() >= 2 => {
+                let k = 1 + rng.usize_below(inner.len() - 1);
+                let (l, r) = inner.split_at(k);
+                let mut out: Vec<Si> = l.to_vec();
+                out.push(Si::V(Sv::Rec(vec![], r.to_vec())));
+                Sv::Rec(attrs.clone(), out)
+            }
+            _ => v.clone(),
+        },
+        Sv::Rec(attrs, items) => {
+            // go into an attribute body or an item
+            let mut attrs = attrs.clone();
+            let mut items = items.clone();
+            if !attrs.is_empty() && rng.below(2) == 0 {
+                let i = rng.usize_below(attrs.len());
+                if let Some(b) = &attrs[i].1 {
+                    attrs[i].1 = Some(regroup(rng, b));
+                }
+            } else if !items.is_empty() {
+                let i = rng.usize_below(items.len());
+                items[i] = match &items[i] {
+                    Si::V(x) => Si::V(regroup(rng, x)),
+                    Si::S(k, x) => Si::S(k.clone(), regroup(rng, x)),
+                };
+            }
+            Sv::Rec(attrs, items)
+        }
+        ow => ow.clone(),
+    }
+}
 
 fn gen_text(rng: &mut Rng) -> String {
     match rng.below(6) {
@@ -157,7 +378,13 @@ fn main() {
                 _ => a == b,
             };
             if got != expected {
-                return Err(format!("compare_recon_values({:?}, {:?}) = {} but the parsed values {:?} / {:?} say {}", a, b, got, va, vb, expected));
+                // the known class C15-F1: two valid texts with different values whose event streams differ only in
+                // where record bodies start and end, reported as equal
+                let known = got && va.is_some() && vb.is_some() && {
+                    let (ea, eb) = (events_without_braces(a), events_without_braces(b));
+                    ea.is_some() && ea == eb
+                };
+                return Err(format!("{}compare_recon_values({:?}, {:?}) = {} but the parsed values {:?} / {:?} say {}", if known { "KNOWN-F1 " } else { "" }, a, b, got, va, vb, expected));
             }
             if compare_recon_values(b, a) != got {
                 return Err(format!("compare_recon_values is not symmetric on {:?} / {:?}", a, b));
@@ -183,6 +410,8 @@ fn main() {
         ("a", "\"a\""), ("1", "1"), ("1", " 1 "), ("{1,2}", "{ 1; 2 }"), ("@a(1)", "@a({1})"), ("@a(1)", "@a( 1 )"), ("@a", "@a()"), ("@a {}", "@a"),
         ("{a:1}", "{\"a\":1}"), ("16", "0x10"), ("1.0", "1"), ("1e2", "100.0"), ("{}", "{ }"), ("@a{1}", "@a {1}"), ("@a(b:1)", "@a({b:1})"),
         ("%AAEC", "%AAEC"), ("true", "\"true\""), ("-0", "0"), ("{1}", "1"), ("@a 1", "@a {1}"), ("@a(1,2)", "@a({1,2})"), ("\"a\\u0062\"", "ab"),
+        ("@attr(1;2)", "@attr(1,2)"), ("@attr(1;2)", "@attr({1,2})"), ("@id(@inner(1;2), 3)", "@id({@inner({1,2}), 3})"), ("@name(3; {a: 1, b: 2})", "@name({3, {a: 1, b: 2}})"),
+        ("{1,{2}}", "{{1,2}}"), ("{b,{b}}", "{{b,b}}"), ("@a(1\n2)", "@a(1,2)"), ("@a(\"x)y\",2)", "@a({\"x)y\",2})"), ("{1\n2}", "{1,2}"), ("@a(\"x,y\")", "@a({\"x,y\"})"),
         ("{", "{"), ("{", "{ "), ("@", "@"), ("", ""), ("", " "), ("{a:}", "{a:}"), ("{:1}", "{: 1}"),
     ] {
         check(a, b, "corpus", &mut failures);
@@ -249,6 +478,21 @@ fn main() {
         check(&forms[1], &damaged, "damaged", &mut failures);
         check(&damaged, &damaged, "damaged", &mut failures);
         let _ = BigUint::from(0u8);
+    }
+
+    // ---- hand-spelled values: every separator, implicit / explicit attribute bodies, delimiters inside strings ----
+    for _ in 0..args.cases {
+        let v = gen_sv(&mut rng, 3);
+        let a = spell_sv(&mut rng, &v);
+        let b = spell_sv(&mut rng, &v);
+        check(&a, &b, "spelled_twice", &mut failures);
+        let w = regroup(&mut rng, &v);
+        let c = spell_sv(&mut rng, &w);
+        check(&a, &c, "regrouped", &mut failures);
+        let canon = parse(&a).map(|x| print_recon_compact(&x).to_string());
+        if let Some(canon) = canon {
+            check(&a, &canon, "spelled_vs_printed", &mut failures);
+        }
     }
 
     // ---- text / boolean keys against the model ----
@@ -318,6 +562,9 @@ fn main() {
 
     failures.sort();
     failures.dedup();
+    let known: Vec<String> = failures.iter().filter(|f| f.starts_with("KNOWN-F1 ")).cloned().collect();
+    failures.retain(|f| !f.starts_with("KNOWN-F1 "));
+    std::fs::write(std::path::Path::new(&args.out).join("known.txt"), known.join("\n")).unwrap();
     std::fs::write(std::path::Path::new(&args.out).join("failures.txt"), failures.join("\n")).unwrap();
     let meta = J::obj(vec![
         ("evaluations", J::I(evals as i128 + w.len() as i128)),
@@ -327,6 +574,7 @@ fn main() {
         ("samples", J::A(vec![])),
         ("direct_failures", J::A(failures.iter().take(40).map(|f| J::s(f.chars().take(500).collect::<String>())).collect())),
         ("direct_failure_count", J::I(failures.len() as i128)),
+        ("known_f1_hits", J::I(known.len() as i128)),
     ]);
     write_meta(&args.out, "meta.json", &meta);
 }
